@@ -54,6 +54,10 @@ pub const LIMIT: usize = 3;
 pub struct Node { pub val: u32, pub next: Option<Box<Node>> }
 pub struct Stack<T> { items: Vec<T> }
 impl<T: Clone + std::fmt::Debug> Stack<T> { pub fn new() -> Self { Stack { items: Vec::new() } } pub fn push(&mut self, t: T) -> &mut Self { self.items.push(t); self } pub fn pop(&mut self) -> Option<T> { self.items.pop() } pub fn peek(&self) -> Option<&T> { self.items.last() } pub fn len(&self) -> usize { self.items.len() } }
+thread_local! {
+    static TL_COUNT: std::cell::Cell<usize> = const { std::cell::Cell::new(0) };
+    static TL_LOG: std::cell::RefCell<Vec<String>> = std::cell::RefCell::new(Vec::new());
+}
 fn nums(s: &str) -> Vec<i64> { s.chars().map(|c| c as i64).collect() }
 fn show<T: std::fmt::Debug>(t: T) -> String { format!("{t:?}") }
 
@@ -160,6 +164,9 @@ probes! {
     slice_strip = |s| { let v: Vec<char> = s.chars().collect(); let p = ['a', 'b']; format!("{:?}{:?}{:?}{:?}", v.strip_prefix(&p[..]).map(|r| r.len()), v.strip_suffix(&[' ']).map(|r| r.len()), v.get(1..3), v.get(..=0).map(|x| x.to_vec())) };
     slice_get_ranges = |s| { let v = nums(s); format!("{:?}{:?}{:?}{:?}", v.get(1..), v.get(..2), v.get(5..2), std::slice::from_ref(&s.len())) };
     slice_splits = |s| { let v: Vec<char> = s.chars().collect(); let f = |c: &char| *c == ','; format!("{:?}|{:?}|{:?}|{:?}", v.rsplit(f).map(|x| x.len()).collect::<Vec<_>>(), v.splitn(2, f).map(|x| x.len()).collect::<Vec<_>>(), v.rsplitn(2, f).map(|x| x.len()).collect::<Vec<_>>(), v.split_inclusive(f).map(|x| x.len()).collect::<Vec<_>>()) };
+    tls_cell = |s| { let a = TL_COUNT.with(|c| c.replace(c.get() + s.len())); TL_COUNT.with(|c| c.set(c.get() + 1)); let b = TL_COUNT.get(); TL_COUNT.set(0); format!("{a}{b}{}", TL_COUNT.with(|c| c.get())) };
+    tls_refcell = |s| { TL_LOG.with(|l| l.borrow_mut().push(s.to_string())); TL_LOG.with_borrow_mut(|l| l.push("x".into())); let n = TL_LOG.with_borrow(|l| l.len()); let j = TL_LOG.with(|l| l.borrow().join("|")); let old = TL_LOG.take(); format!("{n}{j}{}{}", old.len(), TL_LOG.with_borrow(|l| l.len())) };
+    cell_refcell = |s| { let c = std::cell::Cell::new(s.len()); c.set(c.get() * 2); let r = std::cell::RefCell::new(vec![1usize]); r.borrow_mut().push(c.get()); let t = c.replace(0); { let mut b = r.borrow_mut(); b[0] += t; } let shown = format!("{:?}", r.borrow()); format!("{}{}{}", c.get(), shown, r.into_inner().len()) };
     // ---- String
     string_build = |s| { let mut o = String::with_capacity(4); o.push_str(s); o.push('!'); o.insert(0, '>'); o.insert_str(1, "ab"); o += "z"; o };
     string_pop_trunc = |s| { let mut o = s.to_string(); let p = o.pop(); let l = o.chars().count(); if l > 1 && o.is_char_boundary(1) { o.truncate(1); } format!("{o}{p:?}") };
